@@ -5,6 +5,7 @@ mod conc;
 mod content;
 mod crash;
 mod crashrun;
+mod faultrun;
 mod model;
 mod props;
 mod qspec;
@@ -35,6 +36,7 @@ pub fn run_case(p: &Profile, seed: u64, run: u64, ov: &Override, want_case: bool
     match p.kind {
         Kind::Engine => props::run_engine(p, seed, run, ov, want_case),
         Kind::Crash => crashrun::run_crash(p, seed, run, ov, want_case),
+        Kind::Fault => faultrun::run_fault(p, seed, run, ov, want_case),
         _ => {
             let mut o = RunOut::default();
             o.run = run;
